@@ -72,6 +72,51 @@ def check(run):
     ok = bool(dom.tx) and all(st for n, st in dom.tx)
     run.ob("C19.R2", "%s:waited-before-tx" % tr.fq, ok, run.site(tr), "" if ok else "transmit() hands the request to connector.tx on a path where waited has not been set True")
     run.floor("C19.R2", 1)
+    # R6 response parser re-armed after the request is (re)built: it reads the method of the request just built
+    class Armed(Domain):
+        def __init__(self):
+            self.reinit = []
+
+        def initial(self):
+            return False
+
+        def on_event(self, node, state):
+            if isinstance(node, ast.Call):
+                mc = method_call(node)
+                if mc and mc[0] == "self.requester" and mc[1] in ("build", "rebuild"):
+                    yield True, NORMAL
+                    return
+                if mc == ("self.respondent", "reinit"):
+                    self.reinit.append((node, state))
+            yield state, NORMAL
+    dom2 = Armed()
+    Interp(dom2, run.lat).run(tr.node)
+    ok = bool(dom2.reinit) and all(st for n, st in dom2.reinit)
+    run.ob("C19.R6", "%s:respondent-rearmed-after-build" % tr.fq, ok, run.site(tr, dom2.reinit[0][0]) if dom2.reinit else run.site(tr),
+           "" if ok else "transmit() re-initialises the response parser before the request is (re)built: it is armed with the previous request's "
+           "method (a HEAD after a GET is parsed as GET and waits for a body)")
+    run.floor("C19.R6", 1)
+    # R7 defaults taken from the shared requester are copied into the queued request
+    rinit = ix.func(HC, "Requester.__init__")
+    mutable = set()
+    for n in walk_local(rinit.node):
+        if isinstance(n, ast.Assign) and dotted(n.targets[0]) and dotted(n.targets[0]).startswith("self."):
+            t = unparse(n.value)
+            if "dict()" in t or "Hict(" in t or "list(" in t or "[]" in t or "{}" in t:
+                mutable.add(dotted(n.targets[0]).split(".")[1])
+    reqf = ix.method(cls, "request")
+    n7 = 0
+    for n in walk_local(reqf.node):
+        if isinstance(n, ast.Assign) and isinstance(n.targets[0], ast.Subscript) and dotted(n.targets[0].value) == "request":
+            for sub in ast.walk(n.value):
+                if isinstance(sub, ast.Attribute) and dotted(sub) and dotted(sub).startswith("self.requester.") and sub.attr in mutable:
+                    par = parent(sub)
+                    copied = isinstance(par, ast.Attribute) and par.attr == "copy" or (isinstance(par, ast.Call) and (dotted(par.func) or "").split(".")[-1] in ("copy", "deepcopy", "dict", "Hict", "list"))
+                    run.ob("C19.R7", "%s:default-%s-copied" % (reqf.fq, sub.attr), copied, run.site(reqf, n),
+                           "" if copied else "request() stores the requester's own mutable %s in the queued request: requests queued without explicit %s share "
+                           "(and, through Requester.build, accumulate into) one object" % (sub.attr, sub.attr))
+                    n7 += 1
+    run.floor("C19.R7", 2)
     # R3 waited cleared only with the response append
     n3 = 0
     for name, f in sorted(cls.methods.items()):
@@ -143,5 +188,7 @@ MUTANTS = [
     Mutant("waited-false-on-redirect", HC, "Client.redirect", "            self.respondent.redirected = True\n", "            self.respondent.redirected = True\n            self.waited = False\n", {"C19.R5", "C19.R3"}),
     Mutant("waited-cleared-early", HC, "Client.serviceResponse", "                self.respondent.dictify()\n", "                self.respondent.dictify()\n                self.waited = False\n", {"C19.R3"}),
     Mutant("response-without-request", HC, "Client.serviceResponse", "                                      ('request', request),\n", "", {"C19.R3"}),
+    Mutant("reinit-before-build", HC, "Client.transmit", "        self.waited = True\n", "        self.waited = True\n        self.respondent.reinit(method=self.requester.method)\n", {"C19.R6"}),
+    Mutant("default-qargs-shared", HC, "Client.request", "self.requester.qargs.copy()", "self.requester.qargs", {"C19.R7"}),
     Mutant("silent-early-return", HC, "Client.serviceRequests", "        if not self.waited:\n            if self.requests:", "        if not self.waited:\n            if len(self.requests):", silent=True),
 ]
